@@ -48,6 +48,11 @@ CHECKS = {
             "values incl. non-exception returns; invalid error arguments on every decorator. The monitor inspects the exception "
             "object the caller catches and the factory's received objects.",
             "Executions produced only; exhaustive over the listed finite product (factory subsets sampled beyond 24/64).", "3/C09"),
+    "C14": ("exploration", "runtime monitoring: differential run of contracted callables/classes against their undecorated twins, identity and metadata probes",
+            "Callables over sampled C05 signatures x kinds x decorator stacks with interleaved foreign decorators and abstractmethod: "
+            "identity of arguments/result/exception, metadata, __wrapped__ chain, contract list ownership, foreign decorators run once; "
+            "19 class programs x DBC/no DBC x 4 invariant settings compared operation-by-operation with the undecorated twin.",
+            "Executions produced only; message wording of exceptions is not compared; members added around object's slot wrappers are a silent zone.", "3/C14"),
     "C15": ("exploration", "runtime monitoring in subprocesses: interpreter mode x ICONTRACT_SLOW matrix, object identity and event counters",
             "The same instrumented program is executed under python, -O and -OO with ICONTRACT_SLOW unset/empty/non-empty; the child "
             "reports identity of decorated vs. original objects, attribute sets, probe events, verdicts and messages; the parent "
